@@ -1,0 +1,45 @@
+# Observation points for external runtime monitors. Inactive unless the environment variable
+# PANDAPIPES_VERIF is set to "1" when pandapipes is imported; with the guard off nothing in this
+# module is called and the package behaves exactly as without it.
+
+import functools
+import os
+
+ENABLED = os.environ.get("PANDAPIPES_VERIF", "") == "1"
+
+_sinks = []
+
+
+def register(sink):
+    """Register a callable ``sink(event_name, payload_dict)``."""
+    if sink not in _sinks:
+        _sinks.append(sink)
+    return sink
+
+
+def unregister(sink):
+    if sink in _sinks:
+        _sinks.remove(sink)
+
+
+def emit(event, **payload):
+    for sink in list(_sinks):
+        sink(event, payload)
+
+
+def wrap_pipeflow(func):
+    """Report entry and exit (normal or exceptional) of every pipeflow call to the sinks."""
+
+    @functools.wraps(func)
+    def pipeflow(net, *args, **kwargs):
+        emit("enter", net=net, args=args, kwargs=kwargs)
+        try:
+            ret = func(net, *args, **kwargs)
+        except BaseException as exc:
+            emit("exit", net=net, exc=exc)
+            raise
+        emit("exit", net=net, exc=None)
+        return ret
+
+    pipeflow.__wrapped__ = func
+    return pipeflow
